@@ -46,3 +46,22 @@ Definition parse_contours (all : list (list pix)) : list (list pix) := area_filt
 Definition area_tie (cs : list (list pix)) : bool :=
   let areas := map area2_pix cs in existsb (fun a => a * (Z.of_nat (length areas) - 1) =? 5 * (zsum areas - zmax areas)) areas.
 Definition affine (m11 m12 m21 m22 tx ty : Z) (p : pix) : pix := (m11 * fst p + m12 * snd p + tx, m21 * fst p + m22 * snd p + ty).
+
+(* ---- create_lattice, continued (skeleton.py:88-93, 282-299, 106-116, 166-186): one mesh edge per unordered pair of consecutive contour
+   vertices (ids in order of creation); a cell is a border cell when one of its vertices belongs to no other cell, an edge is external
+   when one of its ends belongs to a single cell, a cell all of whose vertices belong to it alone is removed at the end.
+   Cells are the vertex cycles produced by [lattice]; the cell ids are the positions in the list. *)
+Definition pair_in (a b : Z) (es : list (Z * Z)) : bool :=
+  existsb (fun e => ((fst e =? a) && (snd e =? b)) || ((fst e =? b) && (snd e =? a))) es.
+Definition add_edge (es : list (Z * Z)) (p : Z * Z) : list (Z * Z) := if pair_in (fst p) (snd p) es then es else es ++ [p].
+Fixpoint consecutive (l : list Z) : list (Z * Z) :=
+  match l with a :: t => match t with b :: _ => (a, b) :: consecutive t | [] => [] end | [] => [] end.
+Definition closing (l : list Z) : list (Z * Z) := match l with [] => [] | a :: _ => [(last l a, a)] end.
+Definition cell_pairs (l : list Z) : list (Z * Z) := consecutive l ++ closing l.
+Definition edges_of_cells (cells : list (list Z)) : list (Z * Z) := fold_left add_edge (concat (map cell_pairs cells)) [].
+Definition memZ (v : Z) (l : list Z) : bool := existsb (Z.eqb v) l.
+Definition n_own_cells (cells : list (list Z)) (v : Z) : nat := length (filter (memZ v) cells).
+Definition is_border (cells : list (list Z)) (c : list Z) : bool := existsb (fun v => Nat.eqb (n_own_cells cells v) 1) c.
+Definition is_external (cells : list (list Z)) (e : Z * Z) : bool :=
+  Nat.eqb (n_own_cells cells (fst e)) 1 || Nat.eqb (n_own_cells cells (snd e)) 1.
+Definition is_isolated (cells : list (list Z)) (c : list Z) : bool := forallb (fun v => Nat.leb (n_own_cells cells v) 1) c.
